@@ -192,6 +192,16 @@ def moveBody (cfg : Config) (s1 : FState α) (cmd : Cmd α) (deltaE priorE : α)
     | none => r3
   else (s, [.orig cmd])
 
+/-- the `not isMove` part of `processLinearMoves` -/
+def nonMoveBody (s1 : FState α) (cmd : Cmd α) (deltaE priorE : α) : FState α × List (Out α) :=
+  let r := processNonMove s1 cmd deltaE
+  match s1.lastRetraction with
+  | some lr =>
+    if decide (0 < deltaE) && !r.1.excluding && lr.recoverExcluded && !lr.firmwareRetract then
+      (r.1, insertBeforeLast r.2 (.g92e (n2lAbs r.1.position.e priorE)))
+    else r
+  | none => r
+
 def isMoveOf (finalZ : Option α) (xyPairs : List (Option α × Option α)) : Bool :=
   finalZ.isSome || xyPairs.any (fun (a, b) => a.isSome || b.isSome)
 
@@ -201,7 +211,7 @@ def processLinearMoves (cfg : Config) (s : FState α) (cmd : Cmd α)
   let s1 := applyEZF s extruderPosition feedRate finalZ
   let deltaE := deltaEOf s extruderPosition
   toResult <|
-    if !isMoveOf finalZ xyPairs then processNonMove s1 cmd deltaE
+    if !isMoveOf finalZ xyPairs then nonMoveBody s1 cmd deltaE (cur s.position.e)
     else moveBody cfg s1 cmd deltaE (cur s.position.e) s.position xyPairs
 
 def arcLoop := @ERP.arcLoop
